@@ -819,7 +819,8 @@ def _ownership(spec, dicts_now):
 
     def claim(g, top):
         if g["g"] in seen_graphs:
-            ok[0] = False
+            if own(g) or g["nodes"]:  # (an empty graph object held twice owns nothing: harmless)
+                ok[0] = False
             return
         seen_graphs.add(g["g"])
         for v in own(g):
